@@ -48,3 +48,15 @@ Proof.
     intros _. apply str_eqb_eq in A, B, C. auto.
   - intros (-> & -> & ->). rewrite !str_eqb_refl. reflexivity.
 Qed.
+
+(* ---------- TriggerHandler.__actions_for_location: every installed trigger that is at the location contributes its actions,
+   in order (Match.actions_for) ---------- *)
+Lemma kind_of_kind_name k : kind_of_name (kind_name k) = Some k.
+Proof. destruct k; reflexivity. Qed.
+
+Lemma tie_actions_for_location ts e :
+  gen_actions_for_location ts (kind_name (e_kind e)) (e_file e) (e_line e) (e_func e) = actions_for ts e.
+Proof.
+  unfold gen_actions_for_location, actions_for, trigger_at_location. cbv zeta. rewrite kind_of_kind_name. simpl app.
+  destruct e as [k f l fn]. reflexivity.
+Qed.
